@@ -253,3 +253,64 @@ def c03(backends=None, prop="C03"):
         "fragment encode produced), destinations among the supplied fragments, shuffled/unaligned lists, and destinations "
         "-1, n, n+1, INT_MAX, INT_MIN; non-trivial = reconstruct events",
         ["TLC", "ecdrive memcmp", "ASan/UBSan"])
+
+
+def need_cmd(be, k, m, hd, maxl, cap, seed):
+    return "sweep_need %d %d %d %d %d %d %d %d" % (be, k, m, hd, WORD[be], maxl, cap, seed)
+
+
+def c06(backends=None, prop="C06"):
+    chk = Check(prop)
+    thorough = chk.tier == "thorough"
+    backends = backends or BUILTIN
+    mcfg = "MC_XorPlanner_hd" if thorough else "MC_XorPlanner_tol"
+    m1 = _bg(tlc, "MC_XorPlanner", mcfg, workers=8, timeout=1500, tag=prop, heap="16g") if BE_XOR in backends else None
+    cmds = []
+    i = 0
+    for be in backends:
+        if be == BE_XOR:
+            for (k, m, hd) in XOR_TABLES:
+                i += 1
+                # all ordered (R, X) within tolerance; |R|+|X| = hd sampled (quick) / all (thorough)
+                cmds.append(need_cmd(be, k, m, hd, hd - 1, 10**9, _seed_of(chk, i)))
+                cmds.append("sweep_need_len %d %d %d %d %d %d %d %d" % (be, k, m, hd, WORD[be], hd, 10**9 if thorough else 400, _seed_of(chk, i)))
+                cmds.append("sweep_need_len %d %d %d %d %d %d %d %d" % (be, k, m, hd, WORD[be], hd + 1, 100, _seed_of(chk, i)))
+        else:
+            for (k, m) in rs_shapes(12 if thorough else 8):
+                i += 1
+                cmds.append(need_cmd(be, k, m, m, min(m, 4), 4000 if thorough else 1500, _seed_of(chk, i)))
+                cmds.append("sweep_need_len %d %d %d %d %d %d %d %d" % (be, k, m, m, WORD[be], min(m + 1, 6), 40, _seed_of(chk, i)))
+            for (k, m) in boundary_rs():
+                i += 1
+                cmds.append(need_cmd(be, k, m, m, min(m, 5), 600, _seed_of(chk, i)))
+    files, events, restarts = run_sweeps("asan", cmds, prop + "-asan")
+    v = validate("TraceCodes", files)
+    _collect(chk, v, ["C06", "fault", "create failed"])
+    if m1:
+        r = _join(m1)
+        chk.add_tlc(r, mcfg)
+        cases = [json.loads(m.group(1).encode().decode("unicode_escape")) for m in re.finditer(r'<<"CASE", "(.*)">>', r.out)]
+        chk.parts["model_bad_answers"] = len(cases)
+        seen = set()
+        for cs in cases:
+            key = (cs["k"], cs["m"], cs["hd"])
+            if key in seen:
+                continue
+            seen.add(key)
+            chk.violation({"event": "model", "be": 3, "k": cs["k"], "m": cs["m"], "hd": cs["hd"],
+                           "reasons": ["C06 model: planner answer not usable"], "case": cs},
+                          "XorDecoder!Plan (transcription of the current planner): R=%s X=%s -> rc=%s N=%s ub=%s is not a usable "
+                          "answer (%d such model states in total)" % (cs["R"], cs["X"], cs["rc"], cs["N"], cs["ub"], len(cases)))
+        if not r.ok and not cases:
+            chk.violation({"event": "model", "cfg": mcfg}, "model check failed: %s" % r.out[-1500:])
+    c = v.counts or [0] * 12
+    chk.cov["distinct_nontrivial"] = c[7]
+    chk.parts["needed_events"] = c[7]; chk.parts["needed_refused"] = c[8]
+    _samples(chk, files, kinds=("Need",))
+    return _finish_codes(chk,
+        "every ordered pair (R, X) of distinct-index lists with |R|+|X| < hd for all 38 XOR tables through the public API "
+        "(356256 cases), |R|+|X| = hd and hd+1 %s; RS shapes k+m<=%d with |R|+|X| <= min(m,4) (all or seeded sample) and beyond; "
+        "TLC evaluates NeededOK (distinct, in range, disjoint from R and X, GF(2)-span sufficiency / exactly k for RS) per event; "
+        "model: the transcribed planner over the same space; non-trivial = fragments_needed events" %
+        ("exhaustive" if thorough else "sampled", 12 if thorough else 8),
+        ["TLC", "ASan/UBSan"])
